@@ -3,11 +3,19 @@
 //        explore <workers> <scripts>          <mode> <spurious budget> sched  "<names...>" <tail steps>
 // mode 0: the owner waits until every dispatched item has been handled, then destroys the dispatcher;
 // mode 1: the owner may start the destruction at any moment (items may legitimately stay unhandled).
+// mode 2: as mode 0, and every item is a RENDEZVOUS job: the k-th handler entered returns only when (k / workers + 1) * workers
+//         handlers have been entered -- so a consumer that sleeps through a push (lost wake-up) shows as "no thread can move".
 // Output: "T <thread> <label>" per step, notes, then a verdict block read by harness/c15search.py:
 //   WORKER_EXIT_ALIVE <name> <step>   a worker left its loop before the destruction began
 //   DEADLOCK <step> <thread:label ...> no thread can move (without a spurious wake-up) and the owner has not finished
 //   DONE <0|1>                        the owner has finished (destructor returned)
 //   HANDLED <n> OF <total>, LOG lines (B/E worker item)
+//   HAZARD <what>                     object lifetime: the virtual handle_dispatch was called, or the derived handler was
+//                                     still running, when the derived part of the dispatcher was no longer alive
+// Object lifetime: the dispatcher is destroyed by leaving its scope (C++ order: ~Disp body, derived members,
+// ~threaded_dispatcher -> shutdown()).  Default: ~Disp calls shutdown() first thing (the protocol);
+// -DLIFE_NOSHUTDOWN: it does not (known finding K-C15-2).  The derived teardown is a yield point of the owner.
+#include <exception>
 #include <cstdio>
 #include <cstdlib>
 #include <random>
@@ -21,17 +29,33 @@ struct Item { int id; };
 static std::vector<std::string> g_log;
 static int g_handled = 0, g_total = 0;
 static bool g_destroying = false;      // the owner has decided to destroy the dispatcher (set by the probe, not read off the headers)
+static int g_mode = 0, g_workers = 0, g_arrived = 0;
+static int g_part = 0;                 // derived part of the dispatcher: 0 alive, 1 being destroyed, 2 destroyed
+static std::string g_hazard;
+static void hazard(const std::string& what) { if (g_hazard.empty()) g_hazard = what; }
 
 class Disp : public XKoJen::threaded_dispatcher<Item> {
 public:
     Disp(size_t n) : XKoJen::threaded_dispatcher<Item>("explore", n) {}
-    ~Disp() override { shutdown(); }
-    void stop() { shutdown(); }
+    ~Disp() override {
+#ifndef LIFE_NOSHUTDOWN
+        shutdown();                                   // the protocol: stop and join the workers before anything else
+#endif
+        g_part = 1;                                   // rest of the destructor body, then the derived members
+        verif::yield("DerivedTeardown");
+        g_part = 2;                                   // next: ~threaded_dispatcher (vptr := base, handle_dispatch pure)
+    }
 protected:
     void handle_dispatch(ptr_type item) override {
         std::string w = verif::Sched::self()->name.substr(1);
+        if (g_part != 0) hazard("W" + w + " calls the virtual handle_dispatch(item " + std::to_string(item->id) + ") while the derived part is being destroyed");
         g_log.push_back("B " + w + " " + std::to_string(item->id));
+        if (g_mode == 2) {
+            int need = (g_arrived++ / g_workers + 1) * g_workers;
+            verif::yield("Rendezvous", [need] { return g_arrived >= need; });
+        }
         verif::yield("HandlerEnd");
+        if (g_part != 0) hazard("W" + w + " is inside the derived handler (item " + std::to_string(item->id) + ") while the derived part is being destroyed");
         g_log.push_back("E " + w + " " + std::to_string(item->id));
         g_handled++;
     }
@@ -43,13 +67,21 @@ static std::vector<std::string> split(const std::string& s, char c) {
     return r;
 }
 
+static void on_terminate() {      // a pure virtual call (the vptr already points at the base class) ends here
+    printf("HAZARD a worker called handle_dispatch after the derived part was destroyed: pure virtual method called\nDONE 0\nHANDLED %d OF %d\n", g_handled, g_total);
+    fflush(stdout);
+    _Exit(0);
+}
+
 int main(int argc, char** argv) {
+    std::set_terminate(on_terminate);
     int workers = atoi(argv[1]);
     std::vector<std::vector<int>> scripts;
     if (!std::string(argv[2]).empty())
         for (auto& p : split(argv[2], ';')) { std::vector<int> sc; for (auto& x : split(p, ',')) if (!x.empty()) sc.push_back(atoi(x.c_str())); scripts.push_back(sc); }
     for (auto& sc : scripts) g_total += (int)sc.size();
     int mode = atoi(argv[3]);
+    g_mode = mode; g_workers = workers;
     auto& S = verif::Sched::get();
     S.spurious_left = atoi(argv[4]);
     bool random = std::string(argv[5]) == "random";
@@ -69,11 +101,10 @@ int main(int argc, char** argv) {
                         if (k % 2) d.dispatch(Item{id}); else { Disp::ptr_type q(new Item{id}); d.dispatch(q); }
                     }
                 });
-            if (mode == 0) verif::yield("AwaitHandled", [] { return g_handled == g_total; });
+            if (mode == 0 || mode == 2) verif::yield("AwaitHandled", [] { return g_handled == g_total; });
             else verif::yield("BeginDestroy");
             g_destroying = true;
-            d.stop();
-        }
+        }   // ~Disp, derived members, ~threaded_dispatcher
         owner_done = true;
         verif::yield("Destroyed", [] { return false; });
     });
@@ -116,6 +147,7 @@ int main(int argc, char** argv) {
     for (auto& n : S.notes) printf("NOTE %s\n", n.c_str());
     if (!verdict_exit.empty()) printf("WORKER_EXIT_ALIVE %s\n", verdict_exit.c_str());
     if (!verdict_dead.empty()) printf("DEADLOCK %s\n", verdict_dead.c_str());
+    if (!g_hazard.empty()) printf("HAZARD %s\n", g_hazard.c_str());
     printf("ENABLED");
     for (auto* t : S.enabled_threads(false)) printf(" %s", t->name.c_str());
     printf("\nDONE %d\nHANDLED %d OF %d\n", owner_done ? 1 : 0, g_handled, g_total);
